@@ -35,11 +35,15 @@ BASE = dict(MaxNodes=2, Sizes='{0, 1, 2}', Topo='"direct"', SrcRole='"code"',
             RecSet='{TRUE, FALSE}', PresSet='{TRUE, FALSE}',
             DirFlagSet='{TRUE, FALSE}', HandlerSet='{TRUE, FALSE}',
             DstKinds='{"dir", "none", "file"}', RefKinds=ALLREF, MaxRefuse=1,
-            AllowCut='"no"', MaxRec=0, MaxName=0, TopMax=2,
+            AllowCut='"no"', MaxRec=0, MaxName=0, TopMax=2, KeepLog='TRUE',
             WaitAfterData='TRUE', WarnIsFatal='FALSE', SendEmptyE='TRUE',
             SinkReadsStatus='TRUE', RecordErrors='TRUE',
             StatBeforeReply='TRUE', ZeroFillFirst='TRUE',
             CopierRightSide='TRUE')
+
+# short runs: the C1 compiler alone and few GC threads cost a fraction of the CPU
+JVM = {'_JAVA_OPTIONS': '-XX:TieredStopAtLevel=1 -XX:ParallelGCThreads=2 '
+                        '-XX:CICompilerCount=1'}
 
 UP = dict(SrcServer='FALSE', SnkServer='TRUE')
 DOWN = dict(SrcServer='TRUE', SnkServer='FALSE')
@@ -66,7 +70,7 @@ def mc(name, consts, invs=INVS, workers=2, timeout=1500, prop=None):
                     spec='FairSpec' if prop else 'Spec', prop=prop)
     try:
         return tlc.run(SPEC, 'Scp', cfg, f'X01_{name}', workers=workers,
-                       timeout=timeout, java_heap='3g')
+                       timeout=timeout, java_heap='3g', env=JVM)
     finally:
         tlc.cleanup(f'X01_{name}')
         os.remove(os.path.join(SPEC, cfg))
@@ -78,7 +82,7 @@ def emit(name, consts, workers=1, timeout=1500):
     cfg = write_cfg(f'_x01_{name}.cfg', consts, invs=INVS + ['EmitScript'])
     try:
         res = tlc.run(SPEC, 'Scp', cfg, f'X01_{name}', workers=workers,
-                      timeout=timeout, java_heap='3g')
+                      timeout=timeout, java_heap='3g', env=JVM)
     finally:
         tlc.cleanup(f'X01_{name}')
         os.remove(os.path.join(SPEC, cfg))
@@ -94,7 +98,7 @@ def simulate(name, consts, num, seed, depth=120, timeout=600):
                     view=False, spec='SimSpec')
     try:
         res = tlc.run(SPEC, 'Scp', cfg, f'X01_{name}', workers=1,
-                      timeout=timeout, java_heap='2g', deadlock=False,
+                      timeout=timeout, java_heap='2g', deadlock=False, env=JVM,
                       simulate=f'num={num}', depth=depth, seed=seed)
     finally:
         tlc.cleanup(f'X01_{name}')
@@ -237,10 +241,14 @@ def main(ctx):
          None),
         # liveness under weak fairness, connection loss at any point
         ('live_up', None, dict(UP, AllowCut='"any"', DstKinds='{"dir", "none"}',
-                               DirFlagSet='{FALSE}', TopMax=1), 'Terminates'),
+                               DirFlagSet='{FALSE}', TopMax=1,
+                               Sizes='{0, 1}' if quick else '{0, 1, 2}'),
+         'Terminates'),
         ('live_r2r', None, dict(R2R, AllowCut='"any"', DstKinds='{"dir"}',
                                 DirFlagSet='{FALSE}', TopMax=1,
-                                PresSet='{TRUE}'), 'Terminates'),
+                                PresSet='{TRUE}', RecSet='{TRUE}',
+                                Sizes='{0, 1}' if quick else '{0, 1, 2}'),
+         'Terminates'),
         ('live_fsnk', None, dict(FS, MaxNodes=2, AllowCut='"any"'),
          'Terminates'),
         ('live_fsrc', None, dict(FRS, SnkServer='TRUE', AllowCut='"any"',
@@ -273,7 +281,8 @@ def main(ctx):
         kw = dict(kw)
         invs = kw.pop('invs', INVS)
         if prop:
-            return mc(name, kw, invs=[], workers=W, prop=prop)
+            return mc(name, dict(kw, KeepLog='FALSE'), invs=[], workers=W,
+                      prop=prop)
         return mc(name, kw, invs=invs, workers=W)
 
     def one_sim(item):
